@@ -115,6 +115,10 @@ func genTable(r *rng, idx int, n int) srvCase {
 	c := srvCase{idx: idx, cfg: baseCfg(r, "table")}
 	if r.intn(4) == 0 {
 		c.cfg.nosec = false
+		if r.bool() {
+			// a public IP in the configuration together with a caller-chosen node id
+			c.cfg.publicIP = net.IPv4(byte(11+r.intn(200)), byte(r.intn(256)), byte(r.intn(256)), byte(1+r.intn(254))).To4()
+		}
 	}
 	root := c.cfg.root
 	qid := 0
@@ -193,8 +197,18 @@ func genTable(r *rng, idx int, n int) srvCase {
 				c.evs = append(c.evs, makeGood(&qid, p, func(ret *krpc.Return) {
 					ret.Nodes = krpc.CompactIPv4NodeInfo{{ID: third.id, Addr: krpc.NodeAddr{IP: net.IPv4(9, 9, 9, 9).To4(), Port: 9}}}
 				})...)
-			} else {
+			} else if r.bool() {
 				c.evs = append(c.evs, sev{kind: "pkt", src: third.addr, msg: &krpc.Msg{Y: "r", T: "zz", R: &krpc.Return{ID: third.id}}})
+			} else {
+				// an unsolicited "response" (or error) from a contact that is already in the table
+				y := []string{"r", "r", "e"}[r.intn(3)]
+				m := &krpc.Msg{Y: y, T: string(r.bytes(1 + r.intn(3)))}
+				if y == "r" {
+					m.R = &krpc.Return{ID: p.id}
+				} else {
+					m.E = &krpc.Error{Code: 201, Msg: "late"}
+				}
+				c.evs = append(c.evs, sev{kind: "pkt", src: p.addr, msg: m})
 			}
 		case 12, 13, 14:
 			// lookups served from the table: find_node / get_peers / get with targets per bucket
